@@ -302,9 +302,13 @@ theorem daysInMonth_le (y : Int) (m : Nat) : daysInMonth y m ≤ 31 := by
 /-- Offsets RFC 3339 allows: whole minutes up to ±23:59. -/
 def OffsetOk (offMin : Int) : Prop := -1439 ≤ offMin ∧ offMin ≤ 1439
 
+instance (o : Int) : Decidable (OffsetOk o) := by unfold OffsetOk; infer_instance
+
 /-- The local date of instant `t` at offset `offMin` has a four-digit year (0000–9999). -/
 def YearOk (t offMin : Int) : Prop :=
   0 ≤ (civilFromDays ((t + offMin * 60) / 86400)).1 ∧ (civilFromDays ((t + offMin * 60) / 86400)).1 ≤ 9999
+
+instance (t o : Int) : Decidable (YearOk t o) := by unfold YearOk; infer_instance
 
 theorem parseRfc3339_format (t offMin : Int) (st : Style) (hst : st.ok = true)
     (hoff : OffsetOk offMin) (hy : YearOk t offMin) :
@@ -379,5 +383,420 @@ theorem parseStr_format (t offMin : Int) (st : Style) (hst : st.ok = true)
       (by rw [format, hrc, List.append_assoc]) (isWs_digitChar _) hc
   unfold parseStr
   simp only [htrim, parseRfc3339_format t offMin st hst hoff hy]
+
+/-! ## Integer epochs -/
+
+theorem numDigitsAux_eq : ∀ (k f x : Nat), (10 ^ k ≤ x ∨ k = 0) → x < 10 ^ (k + 1) → k < f →
+    numDigitsAux f x = k + 1
+  | 0, f + 1, x, _, hx, _ => by
+    have : x < 10 := by simpa using hx
+    simp [numDigitsAux, this]
+  | k + 1, f + 1, x, hlo, hx, hf => by
+    have hlo' : 10 ^ (k + 1) ≤ x := by rcases hlo with h | h <;> omega
+    have h10 : 10 ^ (k + 1) = 10 * 10 ^ k := by rw [Nat.pow_succ, Nat.mul_comm]
+    have h10' : 10 ^ (k + 1 + 1) = 10 * 10 ^ (k + 1) := by rw [Nat.pow_succ, Nat.mul_comm]
+    have hp : 0 < 10 ^ k := Nat.pow_pos (by decide)
+    have hge : ¬ x < 10 := by omega
+    have ih := numDigitsAux_eq k f (x / 10) (Or.inl (by omega)) (by omega) (by omega)
+    simp only [numDigitsAux, hge, if_false, ih]
+    omega
+
+theorem numDigits_eq (k x : Nat) (hlo : 10 ^ k ≤ x ∨ k = 0) (hhi : x < 10 ^ (k + 1)) (hk : k < 40) :
+    numDigits x = k + 1 := numDigitsAux_eq k 40 x hlo hhi hk
+
+theorem tdiv_natden (n : Int) (d : Nat) :
+    Int.tdiv n d = if 0 ≤ n then n / (d : Int) else -((-n) / (d : Int)) := by
+  split
+  · exact Int.tdiv_eq_ediv_of_nonneg ‹_›
+  · have h : n = -(-n) := by omega
+    rw [h, Int.neg_tdiv, Int.tdiv_eq_ediv_of_nonneg (by omega)]
+    simp
+
+/-- `normalize_integer_epoch` on a value whose digit count is known. -/
+theorem normalize_of_digits (n : Int) (k dv : Nat) (hlo : 10 ^ k ≤ n.natAbs ∨ k = 0)
+    (hhi : n.natAbs < 10 ^ (k + 1)) (hk : k < 40)
+    (hl : lookupUnit (k + 1) Snel.Gen.C16.unitTable = some dv) :
+    normalizeIntegerEpoch n =
+      if i64Min ≤ Int.tdiv n dv ∧ Int.tdiv n dv ≤ i64Max then some (Int.tdiv n dv) else none := by
+  unfold normalizeIntegerEpoch
+  rw [numDigits_eq k _ hlo hhi hk, hl]
+
+theorem normalize_band (n t : Int) (k dv : Nat) (hlo : 10 ^ k ≤ n.natAbs ∨ k = 0)
+    (hhi : n.natAbs < 10 ^ (k + 1)) (hk : k < 40)
+    (hl : lookupUnit (k + 1) Snel.Gen.C16.unitTable = some dv)
+    (hq : Int.tdiv n dv = t) (hfit : i64Min ≤ t ∧ t ≤ i64Max) :
+    normalizeIntegerEpoch n = some t := by
+  rw [normalize_of_digits n k dv hlo hhi hk hl, hq, if_pos hfit]
+
+/-- Seconds, milliseconds, microseconds and nanoseconds of a non-negative instant whose second
+count has 9 or 10 digits: every unit is recognised, any sub-unit remainder is dropped. -/
+theorem units_band_pos (t : Int) (h1 : 10 ^ 8 ≤ t) (h2 : t < 10 ^ 10) :
+    normalizeIntegerEpoch t = some t ∧
+    (∀ r : Int, 0 ≤ r → r < 1000 → normalizeIntegerEpoch (t * 1000 + r) = some t) ∧
+    (∀ r : Int, 0 ≤ r → r < 1000000 → normalizeIntegerEpoch (t * 1000000 + r) = some t) ∧
+    (∀ r : Int, 0 ≤ r → r < 1000000000 → normalizeIntegerEpoch (t * 1000000000 + r) = some t) := by
+  have hfit : i64Min ≤ t ∧ t ≤ i64Max := by unfold i64Min i64Max; omega
+  by_cases h : t < 10 ^ 9
+  · refine ⟨?_, ?_, ?_, ?_⟩
+    · exact normalize_band t t 8 1 (Or.inl (by omega)) (by omega) (by decide) (by decide)
+        (by rw [tdiv_natden]; simp) hfit
+    · intro r hr hr'
+      exact normalize_band _ t 11 1000 (Or.inl (by omega)) (by omega) (by decide) (by decide)
+        (by rw [tdiv_natden]; simp; omega) hfit
+    · intro r hr hr'
+      exact normalize_band _ t 14 1000000 (Or.inl (by omega)) (by omega) (by decide) (by decide)
+        (by rw [tdiv_natden]; simp; omega) hfit
+    · intro r hr hr'
+      exact normalize_band _ t 17 1000000000 (Or.inl (by omega)) (by omega) (by decide) (by decide)
+        (by rw [tdiv_natden]; simp; omega) hfit
+  · refine ⟨?_, ?_, ?_, ?_⟩
+    · exact normalize_band t t 9 1 (Or.inl (by omega)) (by omega) (by decide) (by decide)
+        (by rw [tdiv_natden]; simp) hfit
+    · intro r hr hr'
+      exact normalize_band _ t 12 1000 (Or.inl (by omega)) (by omega) (by decide) (by decide)
+        (by rw [tdiv_natden]; simp; omega) hfit
+    · intro r hr hr'
+      exact normalize_band _ t 15 1000000 (Or.inl (by omega)) (by omega) (by decide) (by decide)
+        (by rw [tdiv_natden]; simp; omega) hfit
+    · intro r hr hr'
+      exact normalize_band _ t 18 1000000000 (Or.inl (by omega)) (by omega) (by decide) (by decide)
+        (by rw [tdiv_natden]; simp; omega) hfit
+
+/-- Negative instants: `/` truncates toward zero, so a value with a sub-second remainder lands on
+the *next* second (`t + 1`), while exact multiples are read correctly. -/
+theorem units_band_neg (t : Int) (h1 : -(10 ^ 10) < t) (h2 : t < -(10 ^ 8)) :
+    normalizeIntegerEpoch t = some t ∧
+    (∀ r : Int, 0 ≤ r → r < 1000 →
+      normalizeIntegerEpoch (t * 1000 + r) = some (if r = 0 then t else t + 1)) ∧
+    (∀ r : Int, 0 ≤ r → r < 1000000 →
+      normalizeIntegerEpoch (t * 1000000 + r) = some (if r = 0 then t else t + 1)) ∧
+    (∀ r : Int, 0 ≤ r → r < 1000000000 →
+      normalizeIntegerEpoch (t * 1000000000 + r) = some (if r = 0 then t else t + 1)) := by
+  have hfit : ∀ x : Int, x = t ∨ x = t + 1 → i64Min ≤ x ∧ x ≤ i64Max := by
+    intro x hx; unfold i64Min i64Max; omega
+  refine ⟨?_, ?_, ?_, ?_⟩
+  · by_cases h : -(10 ^ 9) < t
+    · exact normalize_band t t 8 1 (Or.inl (by omega)) (by omega) (by decide) (by decide)
+        (by rw [tdiv_natden]; simp) (hfit t (Or.inl rfl))
+    · exact normalize_band t t 9 1 (Or.inl (by omega)) (by omega) (by decide) (by decide)
+        (by rw [tdiv_natden]; simp) (hfit t (Or.inl rfl))
+  · intro r hr hr'
+    by_cases hr0 : r = 0
+    · subst hr0
+      simp only [if_true, Int.add_zero]
+      by_cases h : -(10 ^ 9) < t
+      · exact normalize_band _ _ 11 1000 (Or.inl (by omega)) (by omega) (by decide) (by decide)
+          (by rw [tdiv_natden]; split <;> omega) (hfit t (Or.inl rfl))
+      · exact normalize_band _ _ 12 1000 (Or.inl (by omega)) (by omega) (by decide) (by decide)
+          (by rw [tdiv_natden]; split <;> omega) (hfit t (Or.inl rfl))
+    · simp only [hr0, if_false]
+      by_cases h : -(10 ^ 9) ≤ t
+      · exact normalize_band _ _ 11 1000 (Or.inl (by omega)) (by omega) (by decide) (by decide)
+          (by rw [tdiv_natden]; split <;> omega) (hfit _ (Or.inr rfl))
+      · exact normalize_band _ _ 12 1000 (Or.inl (by omega)) (by omega) (by decide) (by decide)
+          (by rw [tdiv_natden]; split <;> omega) (hfit _ (Or.inr rfl))
+  · intro r hr hr'
+    by_cases hr0 : r = 0
+    · subst hr0
+      simp only [if_true, Int.add_zero]
+      by_cases h : -(10 ^ 9) < t
+      · exact normalize_band _ _ 14 1000000 (Or.inl (by omega)) (by omega) (by decide) (by decide)
+          (by rw [tdiv_natden]; split <;> omega) (hfit t (Or.inl rfl))
+      · exact normalize_band _ _ 15 1000000 (Or.inl (by omega)) (by omega) (by decide) (by decide)
+          (by rw [tdiv_natden]; split <;> omega) (hfit t (Or.inl rfl))
+    · simp only [hr0, if_false]
+      by_cases h : -(10 ^ 9) ≤ t
+      · exact normalize_band _ _ 14 1000000 (Or.inl (by omega)) (by omega) (by decide) (by decide)
+          (by rw [tdiv_natden]; split <;> omega) (hfit _ (Or.inr rfl))
+      · exact normalize_band _ _ 15 1000000 (Or.inl (by omega)) (by omega) (by decide) (by decide)
+          (by rw [tdiv_natden]; split <;> omega) (hfit _ (Or.inr rfl))
+  · intro r hr hr'
+    by_cases hr0 : r = 0
+    · subst hr0
+      simp only [if_true, Int.add_zero]
+      by_cases h : -(10 ^ 9) < t
+      · exact normalize_band _ _ 17 1000000000 (Or.inl (by omega)) (by omega) (by decide) (by decide)
+          (by rw [tdiv_natden]; split <;> omega) (hfit t (Or.inl rfl))
+      · exact normalize_band _ _ 18 1000000000 (Or.inl (by omega)) (by omega) (by decide) (by decide)
+          (by rw [tdiv_natden]; split <;> omega) (hfit t (Or.inl rfl))
+    · simp only [hr0, if_false]
+      by_cases h : -(10 ^ 9) ≤ t
+      · exact normalize_band _ _ 17 1000000000 (Or.inl (by omega)) (by omega) (by decide) (by decide)
+          (by rw [tdiv_natden]; split <;> omega) (hfit _ (Or.inr rfl))
+      · exact normalize_band _ _ 18 1000000000 (Or.inl (by omega)) (by omega) (by decide) (by decide)
+          (by rw [tdiv_natden]; split <;> omega) (hfit _ (Or.inr rfl))
+
+/-! ## Sites -/
+
+theorem u64AsI64_of_nonneg (t : Int) (h0 : 0 ≤ t) (h1 : t ≤ i64Max) : u64AsI64 t.toNat = t := by
+  unfold u64AsI64 i64Max at *
+  have : t.toNat < 2 ^ 63 := by omega
+  simp only [this, if_true]
+  omega
+
+theorem sites_string (s : List Char) (t : Int) (hp : parseStr s = some t) :
+    normalizeJson (.str s) = .ok t ∧ rewriteLiteral (.str s) = .int t ∧
+    rowCondition (.str s) = .num t ∧ sinceCondition s = some t ∧
+    prunerTsU64 (SV.ofJson (.str s)) = (max t 0).toNat ∧
+    prunerTsU64 (SV.ofJson (rewriteLiteral (.str s))) = (max t 0).toNat := by
+  refine ⟨?_, ?_, ?_, ?_, ?_, ?_⟩ <;>
+    simp [normalizeJson, rewriteLiteral, rowCondition, sinceCondition, prunerTsU64, SV.ofJson, hp]
+
+theorem listMin_le : ∀ (zone : List Int) (x : Int), x ∈ zone → listMin zone ≤ x := by
+  intro zone x hx
+  cases zone with
+  | nil => cases hx
+  | cons a as =>
+    unfold listMin
+    have key : ∀ (l : List Int) (acc : Int), l.foldl min acc ≤ acc ∧ ∀ y ∈ l, l.foldl min acc ≤ y := by
+      intro l
+      induction l with
+      | nil => intro acc; exact ⟨Int.le_refl _, fun y hy => by cases hy⟩
+      | cons b l ih =>
+        intro acc
+        have := ih (min acc b)
+        refine ⟨by simp only [List.foldl_cons]; omega, ?_⟩
+        intro y hy
+        simp only [List.foldl_cons]
+        rcases List.mem_cons.1 hy with rfl | hy
+        · omega
+        · exact this.2 y hy
+    rcases List.mem_cons.1 hx with rfl | hx
+    · exact (key as x).1
+    · exact (key as a).2 x hx
+
+theorem le_listMax : ∀ (zone : List Int) (x : Int), x ∈ zone → x ≤ listMax zone := by
+  intro zone x hx
+  cases zone with
+  | nil => cases hx
+  | cons a as =>
+    unfold listMax
+    have key : ∀ (l : List Int) (acc : Int), acc ≤ l.foldl max acc ∧ ∀ y ∈ l, y ≤ l.foldl max acc := by
+      intro l
+      induction l with
+      | nil => intro acc; exact ⟨Int.le_refl _, fun y hy => by cases hy⟩
+      | cons b l ih =>
+        intro acc
+        have := ih (max acc b)
+        refine ⟨by simp only [List.foldl_cons]; omega, ?_⟩
+        intro y hy
+        simp only [List.foldl_cons]
+        rcases List.mem_cons.1 hy with rfl | hy
+        · omega
+        · exact this.2 y hy
+    rcases List.mem_cons.1 hx with rfl | hx
+    · exact (key as x).1
+    · exact (key as a).2 x hx
+
+/-- The per-zone test never drops a zone that holds a row satisfying the comparison with the
+instant the pruner compares against. -/
+theorem zoneKept_sound (op : Op) (ts : Int) (zone : List Int) (x : Int) (hx : x ∈ zone)
+    (hop : op ≠ .neq) (hsat : op.eval x ts = true) : zoneKept op ts zone = some true := by
+  have hmin := listMin_le zone x hx
+  have hmax := le_listMax zone x hx
+  cases op <;> simp only [Op.eval, zoneKept, decide_eq_true_eq, beq_iff_eq, ne_eq, not_true] at *
+  · subst hsat; simp [hx]
+  · simp; omega
+  · simp; omega
+  · simp; omega
+  · simp; omega
+
+/-! ## Buckets -/
+
+theorem daysFromCivil_day (y : Int) (m d : Nat) :
+    daysFromCivil y m d = daysFromCivil y m 1 + ((d : Int) - 1) := by
+  unfold daysFromCivil
+  simp only []
+  omega
+
+theorem daysInMonth_cases (y : Int) (m : Nat) :
+    (m = 2 ∧ isLeap y = true ∧ daysInMonth y m = 29) ∨ (m = 2 ∧ isLeap y = false ∧ daysInMonth y m = 28) ∨
+    ((m = 4 ∨ m = 6 ∨ m = 9 ∨ m = 11) ∧ daysInMonth y m = 30) ∨
+    (m ≠ 2 ∧ m ≠ 4 ∧ m ≠ 6 ∧ m ≠ 9 ∧ m ≠ 11 ∧ daysInMonth y m = 31) := by
+  unfold daysInMonth
+  by_cases h2 : m = 2
+  · cases hl : isLeap y <;> simp [h2]
+  · by_cases h : m = 4 ∨ m = 6 ∨ m = 9 ∨ m = 11
+    · simp [h2, h]
+    · simp only [h2, h, if_false]
+      refine Or.inr (Or.inr (Or.inr ⟨h2, ?_, ?_, ?_, ?_, trivial⟩)) <;> omega
+
+/-- A valid date lies inside its civil year. -/
+theorem daysFromCivil_in_year (y : Int) (m d : Nat) (hm : 1 ≤ m ∧ m ≤ 12)
+    (hd : 1 ≤ d ∧ d ≤ daysInMonth y m) :
+    daysFromCivil y 1 1 ≤ daysFromCivil y m d ∧ daysFromCivil y m d < daysFromCivil (y + 1) 1 1 := by
+  have hl : isLeap y = true ∨ isLeap y = false := by cases isLeap y <;> simp
+  have hdim := daysInMonth_cases y m
+  have hleap := isLeap_iff y
+  unfold daysFromCivil
+  simp only []
+  by_cases h2 : m ≤ 2
+  · simp only [h2, if_true]
+    simp only [show ((1 : Nat) ≤ 2) = True from by simp, if_true]
+    rcases hl with hl | hl
+    · have := hleap.1 hl
+      omega
+    · have : ¬ ((y % 4 = 0 ∧ y % 100 ≠ 0) ∨ y % 400 = 0) := fun h => by rw [hleap.2 h] at hl; cases hl
+      omega
+  · simp only [h2, if_false]
+    simp only [show ((1 : Nat) ≤ 2) = True from by simp, if_true]
+    omega
+
+/-- January 1 of successive years: strictly increasing day numbers. -/
+theorem yearStart_lt (y : Int) : daysFromCivil y 1 1 < daysFromCivil (y + 1) 1 1 :=
+  (daysFromCivil_in_year y 1 1 (by omega) (by unfold daysInMonth; simp)).2
+
+theorem yearStart_mono (y : Int) (k : Nat) : daysFromCivil (y + 1) 1 1 ≤ daysFromCivil (y + 1 + k) 1 1 := by
+  induction k with
+  | zero => simp
+  | succ k ih =>
+    have := yearStart_lt (y + 1 + k)
+    have e : y + 1 + ((k + 1 : Nat) : Int) = y + 1 + (k : Int) + 1 := by omega
+    rw [e]
+    omega
+
+/-- Two valid dates with the same day number lie in the same year. -/
+theorem year_unique (y y' : Int) (m d m' d' : Nat) (hm : 1 ≤ m ∧ m ≤ 12) (hd : 1 ≤ d ∧ d ≤ daysInMonth y m)
+    (hm' : 1 ≤ m' ∧ m' ≤ 12) (hd' : 1 ≤ d' ∧ d' ≤ daysInMonth y' m')
+    (h : daysFromCivil y m d = daysFromCivil y' m' d') : y = y' := by
+  have a := daysFromCivil_in_year y m d hm hd
+  have b := daysFromCivil_in_year y' m' d' hm' hd'
+  by_cases hlt : y < y'
+  · have := yearStart_mono y (y' - y - 1).toNat
+    have e : y + 1 + (((y' - y - 1).toNat : Nat) : Int) = y' := by omega
+    rw [e] at this
+    omega
+  · by_cases hgt : y' < y
+    · have := yearStart_mono y' (y - y' - 1).toNat
+      have e : y' + 1 + (((y - y' - 1).toNat : Nat) : Int) = y := by omega
+      rw [e] at this
+      omega
+    · omega
+
+/-- Day number of the first of the next month. -/
+theorem monthStart_succ (y : Int) (m : Nat) (hm : 1 ≤ m ∧ m ≤ 11) :
+    daysFromCivil y (m + 1) 1 = daysFromCivil y m 1 + (daysInMonth y m : Int) := by
+  have hdim := daysInMonth_cases y m
+  have hleap := isLeap_iff y
+  have hl : isLeap y = true ∨ isLeap y = false := by cases isLeap y <;> simp
+  have hne : ¬ ((y % 4 = 0 ∧ y % 100 ≠ 0) ∨ y % 400 = 0) → isLeap y = false := by
+    intro h; rcases hl with hl | hl
+    · exact absurd (hleap.1 hl) h
+    · exact hl
+  unfold daysFromCivil
+  simp only []
+  by_cases h1 : m = 1
+  · subst h1; simp; omega
+  by_cases h2 : m = 2
+  · subst h2
+    simp
+    by_cases h400 : y % 400 = 0
+    · have hl' : isLeap y = true := hleap.2 (Or.inr h400)
+      rcases hdim with h | h | h | h
+      · omega
+      · rw [hl'] at h; exact absurd h.2.1 (by simp)
+      · omega
+      · omega
+    · by_cases h4 : y % 4 = 0
+      · by_cases h100 : y % 100 = 0
+        · have hl' : isLeap y = false := hne (by omega)
+          rcases hdim with h | h | h | h
+          · rw [hl'] at h; exact absurd h.2.1 (by simp)
+          · omega
+          · omega
+          · omega
+        · have hl' : isLeap y = true := hleap.2 (Or.inl ⟨h4, h100⟩)
+          rcases hdim with h | h | h | h
+          · omega
+          · rw [hl'] at h; exact absurd h.2.1 (by simp)
+          · omega
+          · omega
+      · have hl' : isLeap y = false := hne (by omega)
+        rcases hdim with h | h | h | h
+        · rw [hl'] at h; exact absurd h.2.1 (by simp)
+        · omega
+        · omega
+        · omega
+  · have hcases : m = 3 ∨ m = 4 ∨ m = 5 ∨ m = 6 ∨ m = 7 ∨ m = 8 ∨ m = 9 ∨ m = 10 ∨ m = 11 := by omega
+    rcases hcases with rfl | rfl | rfl | rfl | rfl | rfl | rfl | rfl | rfl <;>
+      simp [daysInMonth] <;> omega
+
+theorem monthStart_mono (y : Int) (m : Nat) (k : Nat) (hm : 1 ≤ m) (hk : m + 1 + k ≤ 12) :
+    daysFromCivil y m 1 + (daysInMonth y m : Int) ≤ daysFromCivil y (m + 1 + k) 1 := by
+  induction k with
+  | zero => rw [Nat.add_zero, monthStart_succ y m ⟨hm, by omega⟩]; omega
+  | succ k ih =>
+    have := ih (by omega)
+    have e : m + 1 + (k + 1) = (m + 1 + k) + 1 := by omega
+    rw [e, monthStart_succ y (m + 1 + k) ⟨by omega, by omega⟩]
+    omega
+
+/-- `daysFromCivil` is injective on existing dates. -/
+theorem daysFromCivil_inj (y y' : Int) (m d m' d' : Nat) (hm : 1 ≤ m ∧ m ≤ 12)
+    (hd : 1 ≤ d ∧ d ≤ daysInMonth y m) (hm' : 1 ≤ m' ∧ m' ≤ 12) (hd' : 1 ≤ d' ∧ d' ≤ daysInMonth y' m')
+    (h : daysFromCivil y m d = daysFromCivil y' m' d') : y = y' ∧ m = m' ∧ d = d' := by
+  have hy := year_unique y y' m d m' d' hm hd hm' hd' h
+  subst hy
+  rw [daysFromCivil_day y m d, daysFromCivil_day y m' d'] at h
+  have hmm : m = m' := by
+    by_cases hlt : m < m'
+    · have := monthStart_mono y m (m' - m - 1) hm.1 (by omega)
+      have e : m + 1 + (m' - m - 1) = m' := by omega
+      rw [e] at this
+      omega
+    · by_cases hgt : m' < m
+      · have := monthStart_mono y m' (m - m' - 1) hm'.1 (by omega)
+        have e : m' + 1 + (m - m' - 1) = m := by omega
+        rw [e] at this
+        omega
+      · omega
+  subst hmm
+  exact ⟨rfl, rfl, by omega⟩
+
+/-- `civilFromDays` undoes `daysFromCivil` on every existing date. -/
+theorem civilFromDays_daysFromCivil (y : Int) (m d : Nat) (hm : 1 ≤ m ∧ m ≤ 12)
+    (hd : 1 ≤ d ∧ d ≤ daysInMonth y m) : civilFromDays (daysFromCivil y m d) = (y, m, d) := by
+  have hv := civilFromDays_valid (daysFromCivil y m d)
+  have hr := daysFromCivil_civilFromDays (daysFromCivil y m d)
+  obtain ⟨a, b, c⟩ := daysFromCivil_inj _ y _ _ m d ⟨hv.1, hv.2.1⟩ ⟨hv.2.2.1, hv.2.2.2⟩ hm hd hr
+  exact Prod.ext a (Prod.ext b c)
+
+theorem bucketLocal_hour (ws : Nat) (l : Int) :
+    bucketLocal .hour ws l ≤ l ∧ l < bucketLocal .hour ws l + 3600 ∧ bucketLocal .hour ws l % 3600 = 0 := by
+  simp only [bucketLocal]; omega
+
+theorem bucketLocal_day (ws : Nat) (l : Int) :
+    bucketLocal .day ws l ≤ l ∧ l < bucketLocal .day ws l + 86400 ∧ bucketLocal .day ws l % 86400 = 0 := by
+  simp only [bucketLocal]; omega
+
+/-- Week buckets start at midnight of the configured weekday (`(day + 3) % 7` is the number of
+days from Monday: 1970-01-01 was a Thursday) and last seven days. -/
+theorem bucketLocal_week (ws : Nat) (hws : ws < 7) (l : Int) :
+    bucketLocal .week ws l ≤ l ∧ l < bucketLocal .week ws l + 604800 ∧
+      bucketLocal .week ws l % 86400 = 0 ∧ (bucketLocal .week ws l / 86400 + 3) % 7 = ws := by
+  simp only [bucketLocal]; omega
+
+theorem bucketLocal_month (ws : Nat) (l : Int) :
+    bucketLocal .month ws l
+        = daysFromCivil (civilFromDays (l / 86400)).1 (civilFromDays (l / 86400)).2.1 1 * 86400 ∧
+      bucketLocal .month ws l ≤ l ∧
+      l < bucketLocal .month ws l
+        + (daysInMonth (civilFromDays (l / 86400)).1 (civilFromDays (l / 86400)).2.1 : Int) * 86400 := by
+  have hv := civilFromDays_valid (l / 86400)
+  have hr := daysFromCivil_civilFromDays (l / 86400)
+  rw [daysFromCivil_day] at hr
+  simp only [bucketLocal]
+  refine ⟨trivial, ?_, ?_⟩ <;> omega
+
+theorem bucketLocal_year (ws : Nat) (l : Int) :
+    bucketLocal .year ws l = daysFromCivil (civilFromDays (l / 86400)).1 1 1 * 86400 ∧
+      bucketLocal .year ws l ≤ l ∧
+      l < daysFromCivil ((civilFromDays (l / 86400)).1 + 1) 1 1 * 86400 := by
+  have hv := civilFromDays_valid (l / 86400)
+  have hr := daysFromCivil_civilFromDays (l / 86400)
+  have hy := daysFromCivil_in_year _ _ _ ⟨hv.1, hv.2.1⟩ ⟨hv.2.2.1, hv.2.2.2⟩
+  rw [hr] at hy
+  simp only [bucketLocal]
+  refine ⟨trivial, ?_, ?_⟩ <;> omega
 
 end Snel.Time
